@@ -203,18 +203,21 @@ def r3_entrypoints(ctx):
         m = flow.methods.get(name)
         if m is None:
             raise AnalysisError('Flow.%s not found' % name)
-        ok = False
-        for r in [n for n in own_nodes(m.node) if isinstance(n, ast.Return)]:
-            v = r.value
+        from sa.pathvals import returned_values
+        vals = returned_values(ctx.N(m, keep=('_chain',)).node, m.qualname)
+        ok = bool(vals)
+        for v in vals:
+            good = False
             if isinstance(v, ast.Call) and isinstance(v.func, ast.Attribute) and v.func.attr == inner:
                 b = v.func.value
                 if isinstance(b, ast.Call) and isinstance(b.func, ast.Attribute) and b.func.attr == '_chain' \
                         and isinstance(b.func.value, ast.Name) and b.func.value.id == 'self':
-                    ok = True
+                    good = True
                     if name == 'datastream':
                         # the caller's upstream must be passed on
                         p = m.params[1] if len(m.params) > 1 else None
-                        ok = p is not None and any(isinstance(a, ast.Name) and a.id == p for a in b.args)
+                        good = p is not None and any(isinstance(a, ast.Name) and a.id == p for a in b.args)
+            ok = ok and good
         run.check(ok, 'R3', m.where, m.qualname, 'return self._chain(..).%s(..)' % inner,
                   'Flow.%s does not evaluate the same folded chain (self._chain(...).%s(...))' % (name, inner))
     dsp = ctx.repo.cls('dataflows.base.datastream_processor:DataStreamProcessor')
